@@ -60,16 +60,16 @@ var scens = []scen{
 	// ---- C10: complete, ordered, isolated ----
 	{Name: "c10-two-ids-oversized", Props: []string{"C10"}, IDs: []uint32{1, 2}, Qlen: 8,
 		Writers: []wspec{{"A", 1, []int{maxPayload + 1}}, {"A", 2, []int{1, 0}}},
-		Readers: []rspec{{"B", 1, 0}, {"B", 2, 0}}, Bound: [2]int{2, 3}},
+		Readers: []rspec{{"B", 1, 0}, {"B", 2, 0}}, Bound: [2]int{2, 4}},
 	{Name: "c10-same-id-two-writers", Props: []string{"C10"}, IDs: []uint32{1}, Qlen: 8,
 		Writers: []wspec{{"A", 1, []int{2*maxPayload + 3}}, {"A", 1, []int{maxPayload - 1, maxPayload}}},
-		Readers: []rspec{{"B", 1, 0}}, Bound: [2]int{2, 3}},
+		Readers: []rspec{{"B", 1, 0}}, Bound: [2]int{2, 4}},
 	{Name: "c10-both-directions", Props: []string{"C10"}, IDs: []uint32{1, 2}, Qlen: 8,
 		Writers: []wspec{{"A", 1, []int{maxPayload + 1}}, {"B", 1, []int{3}}, {"B", 2, []int{maxPayload}}},
 		Readers: []rspec{{"B", 1, 0}, {"A", 1, 0}, {"A", 2, 0}}, Bound: [2]int{2, 3}},
 	{Name: "c10-short-reads", Props: []string{"C10"}, IDs: []uint32{1, 2}, Qlen: 8, Short: true,
 		Writers: []wspec{{"A", 1, []int{maxPayload + 2}}, {"A", 2, []int{2}}},
-		Readers: []rspec{{"B", 1, 0}, {"B", 2, 0}}, Bound: [2]int{2, 2}},
+		Readers: []rspec{{"B", 1, 0}, {"B", 2, 0}}, Bound: [2]int{2, 3}},
 	{Name: "c10-three-ids-default-queue", Props: []string{"C10"}, IDs: []uint32{1, 2, 3}, Qlen: 0,
 		Writers: []wspec{{"A", 1, []int{1}}, {"A", 2, []int{maxPayload + 1}}, {"A", 3, []int{0, 2}}},
 		Readers: []rspec{{"B", 1, 0}, {"B", 2, 0}, {"B", 3, 0}}, Bound: [2]int{2, 3}},
@@ -82,22 +82,22 @@ var scens = []scen{
 	// ---- C11: fail stop ----
 	{Name: "c11-cut-any-offset", Props: []string{"C11"}, IDs: []uint32{1, 2}, Qlen: 8, Cut: true,
 		Writers: []wspec{{"A", 1, []int{maxPayload + 1}}, {"B", 2, []int{2}}},
-		Readers: []rspec{{"B", 1, 0}, {"A", 2, 0}}, Bound: [2]int{1, 2}},
+		Readers: []rspec{{"B", 1, 0}, {"A", 2, 0}}, Bound: [2]int{1, 3}},
 	{Name: "c11-close-during-traffic", Props: []string{"C11"}, IDs: []uint32{1, 2}, Qlen: 8,
 		Writers: []wspec{{"A", 1, []int{maxPayload + 1}}, {"B", 2, []int{2}}},
 		Readers: []rspec{{"B", 1, 0}, {"A", 2, 0}},
-		Closers: []cspec{{"mux:A", 1}}, Bound: [2]int{2, 3}},
+		Closers: []cspec{{"mux:A", 1}}, Bound: [2]int{2, 4}},
 	{Name: "c11-concurrent-closers", Props: []string{"C11"}, IDs: []uint32{1}, Qlen: 8,
 		Writers: []wspec{{"A", 1, []int{3}}},
 		Readers: []rspec{{"B", 1, 0}, {"A", 1, 0}},
-		Closers: []cspec{{"mux:A", 2}, {"mux:A", 1}, {"mux:B", 1}}, Bound: [2]int{2, 3}},
+		Closers: []cspec{{"mux:A", 2}, {"mux:A", 1}, {"mux:B", 1}}, Bound: [2]int{2, 4}},
 	{Name: "c11-conn-close", Props: []string{"C11"}, IDs: []uint32{1, 2}, Qlen: 8,
 		Writers: []wspec{{"A", 1, []int{2}}, {"A", 2, []int{2}}},
 		Readers: []rspec{{"B", 1, 0}, {"B", 2, 0}},
-		Closers: []cspec{{"conn:B:1", 2}, {"conn:B:1", 1}}, Bound: [2]int{2, 3}},
+		Closers: []cspec{{"conn:B:1", 2}, {"conn:B:1", 1}}, Bound: [2]int{2, 4}},
 	{Name: "c11-overflow", Props: []string{"C11"}, IDs: []uint32{1, 2}, Qlen: 1,
 		Writers: []wspec{{"A", 1, []int{1, 2, 3}}, {"A", 2, []int{1}}},
-		Readers: []rspec{{"B", 1, 1}, {"B", 2, 0}}, Bound: [2]int{2, 3}},
+		Readers: []rspec{{"B", 1, 1}, {"B", 2, 0}}, Bound: [2]int{2, 4}},
 	{Name: "c11-overflow-oversized", Props: []string{"C11"}, IDs: []uint32{1}, Qlen: 2,
 		Writers: []wspec{{"A", 1, []int{2*maxPayload + 1}}},
 		Readers: []rspec{{"B", 1, 1}}, Bound: [2]int{2, 3}},
@@ -112,12 +112,13 @@ var scens = []scen{
 	{Name: "c11-cut-with-closer", Props: []string{"C11"}, IDs: []uint32{1}, Qlen: 8, Cut: true,
 		Writers: []wspec{{"A", 1, []int{maxPayload + 1}}},
 		Readers: []rspec{{"B", 1, 0}},
-		Closers: []cspec{{"conn:A:1", 1}}, Bound: [2]int{1, 2}},
+		Closers: []cspec{{"conn:A:1", 1}}, Bound: [2]int{1, 3}},
 	{Name: "c11-read-deadline-error", Props: []string{"C11"}, IDs: []uint32{1, 2}, Qlen: 8, Timeout: true,
 		Writers: []wspec{{"A", 1, []int{maxPayload + 1, 2}}, {"A", 2, []int{3}}},
 		Readers: []rspec{{"B", 1, 0}, {"B", 2, 0}}, Bound: [2]int{2, 3}},
-	{Name: "c10-close-and-reopen-id", Props: []string{"C10"}, IDs: []uint32{1, 2}, Qlen: 8, Script: "reopen", Bound: [2]int{2, 3}},
-	{Name: "c10-traffic-for-closed-id", Props: []string{"C10"}, IDs: []uint32{1, 2}, Qlen: 2, Script: "closed-id-flood", Bound: [2]int{2, 3}},
+	{Name: "c10-close-and-reopen-id", Props: []string{"C10"}, IDs: []uint32{1, 2}, Qlen: 8, Script: "reopen", Bound: [2]int{2, 4}},
+	{Name: "c10-traffic-for-closed-id", Props: []string{"C10"}, IDs: []uint32{1, 2}, Qlen: 2, Script: "closed-id-flood", Bound: [2]int{2, 4}},
+	{Name: "c11-stale-handle-closed-again", Props: []string{"C11", "C10"}, IDs: []uint32{1, 2}, Qlen: 8, Script: "reopen-stale-close", Bound: [2]int{2, 4}},
 	{Name: "c11-listener", Props: []string{"C11"}, IDs: []uint32{3}, Qlen: 8, Listener: true,
 		Closers: []cspec{{"listener:A:3", 2}}, Bound: [2]int{3, 4}},
 }
@@ -387,12 +388,19 @@ func (w *world) scriptScenario(mux map[string]multiplex.Mux) {
 	}
 	b1.Close()
 	done := 0
+	var reopened net.Conn
 	switch sc.Script {
-	case "reopen":
+	case "reopen", "reopen-stale-close":
 		nb1 := open("B", 1)
 		if nb1 == b1 {
 			note("opening id 1 again after Close returned the closed connection")
 			return
+		}
+		reopened = nb1
+		if sc.Script == "reopen-stale-close" {
+			// closing a connection twice is harmless: the old handle's second Close must not touch the
+			// connection that now owns the id
+			b1.Close()
 		}
 		f2 := payload(1, 0, maxPayload+2)
 		var got [][]byte
@@ -432,24 +440,43 @@ func (w *world) scriptScenario(mux map[string]multiplex.Mux) {
 					return
 				}
 			}
-			if _, err := a2.Write(payload(3, 0, 2)); err != nil {
-				note("write on id 2 failed: %v", err)
+			// two frames for the other id, no longer than the dropped ones, the first possibly still
+			// queued when the second arrives
+			for k := 0; k < 2; k++ {
+				if _, err := a2.Write(payload(3, k, 2)); err != nil {
+					note("write on id 2 failed: %v", err)
+				}
 			}
 		})
+		want := append(append([]byte(nil), payload(3, 0, 2)...), payload(3, 1, 2)...)
 		vsched.Go("R", func() {
 			defer func() { done++ }()
 			rb := make([]byte, maxPayload+4)
-			n, err := b2.Read(rb)
-			got, rerr = append([]byte(nil), rb[:n]...), err
+			for len(got) < len(want) {
+				n, err := b2.Read(rb)
+				if err != nil {
+					rerr = err
+					return
+				}
+				got = append(got, rb[:n]...)
+			}
 		})
 		vsched.Block("join", nil, func() bool { return done == 2 })
-		if rerr != nil || string(got) != string(payload(3, 0, 2)) {
-			note("reader B:2 received %x (err %v), expected %x although nothing failed: traffic for an id that was closed locally must be dropped without affecting other connections", got, rerr, payload(3, 0, 2))
+		if rerr != nil || string(got) != string(want) {
+			note("reader B:2 received %x (err %v), expected %x although nothing failed: traffic for an id that was closed locally must be dropped without affecting other connections", got, rerr, want)
 		}
 		w.accepts = append(w.accepts, fmt.Sprintf("other-id=%d", len(got)))
 	}
 	mux["A"].Close()
 	mux["B"].Close()
+	if sc.Script == "reopen-stale-close" {
+		// after the mux is closed a read on the connection that owns the id returns an error at once
+		if reopened != nil {
+			if _, err := reopened.Read(buf); err == nil {
+				note("Read on the reopened connection returned data after the mux was closed")
+			}
+		}
+	}
 	w.closedOK = true
 }
 
@@ -686,7 +713,7 @@ func main() {
 	}
 	deadline := time.Now().Add(8 * time.Minute)
 	if f.Thorough() {
-		deadline = time.Now().Add(45 * time.Minute)
+		deadline = time.Now().Add(210 * time.Minute)
 	}
 	bounds := map[string]int{}
 	for i := range scens {
